@@ -155,7 +155,10 @@ Fixpoint enum_from {A} (i : N) (l : list A) : list (N * A) :=
 Definition enumerate {A} (l : list A) : list (N * A) := enum_from 0 l.
 
 Definition len {A} (l : list A) : N := N.of_nat (length l).
-Definition vget {A} (l : list A) (k : N) : option A := nth_error l (N.to_nat k).
+(* vec.get(key as usize); the bound test first, so that the extracted code never builds the unary number
+   `N.to_nat k` for a huge out-of-range key *)
+Definition vget {A} (l : list A) (k : N) : option A :=
+  if k <? len l then nth_error l (N.to_nat k) else None.
 Fixpoint set_nth {A} (l : list A) (n : nat) (a : A) : list A :=
   match l, n with
   | [], _ => []
